@@ -4,6 +4,7 @@ package c03
 
 import (
 	"fmt"
+	"os"
 	"strings"
 
 	"github.com/foxcpp/maddy/internal/zzverif/mx"
@@ -29,6 +30,86 @@ func (d *dinfo) delivered(tok string) (ok, total int) {
 		}
 	}
 	return
+}
+
+// deliveredAddr is delivered() restricted to one effective address of the token. Static
+// alias tables make several recipients share a token on a target (alias -> address of
+// another recipient); the copies are then told apart by the exact address. When the
+// delivery has no address of that token spelled exactly as predicted, all of them count.
+func (d *dinfo) deliveredAddr(tok, want string) (ok, total int) {
+	exact := false
+	for _, a := range d.tokens[tok] {
+		if a == want {
+			exact = true
+		}
+	}
+	if !exact {
+		return d.delivered(tok)
+	}
+	for _, a := range d.tokens[tok] {
+		if a != want {
+			continue
+		}
+		total++
+		if d.s.DeliveredTo(a) {
+			ok++
+		}
+	}
+	return
+}
+
+// pair is one (effective address, target) a recipient must reach by the reference rewriter/router.
+type pair struct {
+	addr, tok string
+	tgt       int
+}
+
+func pairsOf(sc *scenario, rc *rcptRec) []pair {
+	var out []pair
+	seen := map[string]bool{}
+	for _, e := range sc.resolve(rc.Local, rc.Domain) {
+		for _, t := range e.Targets {
+			k := fmt.Sprintf("%s|%d", e.addr(), t)
+			if !seen[k] {
+				seen[k] = true
+				out = append(out, pair{addr: e.addr(), tok: tokenOf(e.addr()), tgt: t})
+			}
+		}
+	}
+	return out
+}
+
+// sharedAddrs lists the effective addresses of rc that another RCPT command of the same
+// transaction (another token; accepted or not - a recipient refused half-way of a 1:N
+// expansion has left its first copies on the targets) resolves to as well, string-equal,
+// on whatever target.
+func sharedAddrs(sc *scenario, tx *ctx, rc *rcptRec) []string {
+	if len(sc.Alias) == 0 || tx == nil {
+		return nil
+	}
+	var out []string
+	seen := map[string]bool{}
+	for _, pr := range pairsOf(sc, rc) {
+		if seen[pr.addr] {
+			continue
+		}
+		seen[pr.addr] = true
+		shared := false
+		for _, rc2 := range tx.Rcpts {
+			if rc2 == rc || rc2.Unmodelled || rc2.Token == rc.Token {
+				continue
+			}
+			for _, pr2 := range pairsOf(sc, rc2) {
+				if pr2.addr == pr.addr {
+					shared = true
+				}
+			}
+		}
+		if shared {
+			out = append(out, pr.addr)
+		}
+	}
+	return out
 }
 
 // failureLabel names the stage of a failing monitored event ("" = not a failure).
@@ -195,6 +276,17 @@ func judge(r *rep.Reporter, c *rep.Case, sc *scenario, rg *rig, eng *engine, mar
 		for _, rc := range tx.Rcpts {
 			if !rc.Unmodelled && rc.Token != "" {
 				recsByToken[rc.Token] = append(recsByToken[rc.Token], rc)
+				if len(sc.Alias) > 0 {
+					// a static alias may hand this recipient to the targets under the token of
+					// another RCPT command: a delivery showing that token may stem from either
+					done := map[string]bool{rc.Token: true}
+					for _, e := range sc.resolve(rc.Local, rc.Domain) {
+						if tok := tokenOf(e.addr()); !done[tok] {
+							done[tok] = true
+							recsByToken[tok] = append(recsByToken[tok], rc)
+						}
+					}
+				}
 			}
 		}
 	}
@@ -257,6 +349,67 @@ func judge(r *rep.Reporter, c *rep.Case, sc *scenario, rg *rig, eng *engine, mar
 		return "none"
 	}
 
+	// ---- evidence for the alias classes: body-stage failures, by path, of LMTP transactions in which
+	// two accepted recipients share an effective address (alias and expanded form both named) ----
+	if len(sc.Alias) > 0 {
+		for _, tx := range eng.txs {
+			for _, rc := range tx.Rcpts {
+				if rc.Accepted && !rc.Unmodelled && sc.aliased(rc.Local, rc.Domain) {
+					r.Count("alias_rcpts_accepted_rewritten", 1)
+					if len(pairsOf(sc, rc)) > 1 {
+						r.Count("alias_rcpts_accepted_one_to_many", 1)
+					}
+				}
+			}
+		}
+		for _, msg := range msgOrder {
+			tx, ambiguous := txOf(byMsg[msg])
+			if ambiguous || tx == nil || (tx.Term != "data" && tx.Term != "bdat") {
+				continue
+			}
+			shared := false
+			for _, rc := range tx.Rcpts {
+				if !rc.Accepted || rc.Unmodelled {
+					continue
+				}
+				for _, a := range sharedAddrs(sc, tx, rc) {
+					for _, rc2 := range tx.Rcpts {
+						if rc2 != rc && rc2.Accepted && !rc2.Unmodelled && rc2.Token != rc.Token {
+							for _, pr2 := range pairsOf(sc, rc2) {
+								if pr2.addr == a {
+									shared = true
+								}
+							}
+						}
+					}
+				}
+			}
+			if !shared {
+				continue
+			}
+			r.Count("alias_shared_tx_"+proto, 1)
+			paths := map[string]bool{}
+			for _, e := range events {
+				if e.MsgID != msg {
+					continue
+				}
+				switch l := failureLabel(e); {
+				case l == "check.body":
+					paths["check_body"] = true
+				case l == "mod.body":
+					paths["mod_body"] = true
+				case l == "body@target" && e.Kind == "body":
+					paths["target_body"] = true
+				case l == "body@target" || l == "status@target":
+					paths["target_status"] = true
+				}
+			}
+			for k := range paths {
+				r.Count("alias_shared_"+proto+"_fail_"+k, 1)
+			}
+		}
+	}
+
 	// ---- (a) closed exactly once by the end of the session, (b) no use after close ----
 	for _, d := range ds {
 		var tx *ctx
@@ -300,17 +453,50 @@ func judge(r *rep.Reporter, c *rep.Case, sc *scenario, rg *rig, eng *engine, mar
 		}
 	}
 
+	// A PartialDelivery target reports per-recipient failures under the EFFECTIVE address and the
+	// pipeline translates them back with ONE map effective -> original per message
+	// (msgpipelineDelivery.originalRcpts). When two RCPT commands of a transaction resolve to the same
+	// effective address (alias and its expansion both named; on the same target or on different ones),
+	// a failing status for that address reaches only the recipient that wrote the map entry last -
+	// on the pinned tree the other one keeps the implicit 250 (suspected defect, reported; see
+	// NOTES.md "alias and expanded form"). Where the address sits twice on ONE partial target the
+	// scripted target's per-address status cannot be attributed to an instance either. Only those
+	// recipients, and only when a PartialDelivery target did report a failing status for the shared
+	// address, are left unjudged per recipient (LMTP); the transaction-level clauses still apply, and
+	// every failure that does not come from a partial target's status (body check, RewriteBody,
+	// Body of a non-partial target) is judged for them.
+	ambiguousShared := func(tx *ctx, rc *rcptRec) bool {
+		if os.Getenv("VERIF_C03_JUDGE_SHARED") != "" { // drill: show the pinned tree's behaviour
+			return false
+		}
+		for _, a := range sharedAddrs(sc, tx, rc) {
+			for _, d := range ds {
+				if d.probe || !sc.Partial[d.tgt] {
+					continue
+				}
+				if _, bad := d.s.Status[a]; bad {
+					return true
+				}
+			}
+		}
+		return false
+	}
+
 	// ---- (c) success reply => committed on every target of every accepted recipient ----
 	requireDelivered := func(tx *ctx, rc *rcptRec, clause string) {
-		for _, t := range sc.targetsOf(rc.Local, rc.Domain) {
+		if sc.aliased(rc.Local, rc.Domain) {
+			r.Count("alias_c_judged_rewritten_recipients", 1)
+		}
+		for _, pr := range pairsOf(sc, rc) {
+			t := pr.tgt
 			r.Count("judged_c_recipient_target_pairs", 1)
 			reason := "never-offered"
 			ok := false
 			for _, d := range ds {
-				if d.probe || d.tgt != t || !d.all[rc.Token] {
+				if d.probe || d.tgt != t || !d.all[pr.tok] {
 					continue
 				}
-				nOK, nAll := d.delivered(rc.Token)
+				nOK, nAll := d.deliveredAddr(pr.tok, pr.addr)
 				switch {
 				case nAll == 0:
 					reason = "refused-by-target"
@@ -335,8 +521,8 @@ func judge(r *rep.Reporter, c *rep.Case, sc *scenario, rg *rig, eng *engine, mar
 			}
 			if !ok {
 				c.Violation(fmt.Sprintf("c/%s/%s/term=%s/missing=%s", clause, proto, termOf(tx), reason),
-					fmt.Sprintf("recipient <%s> was accepted and the transaction was answered with success, but target t%d did not commit it (%s)", rc.Raw, t, reason),
-					witness(map[string]any{"recipient": rc, "target": t}))
+					fmt.Sprintf("recipient <%s> (offered to the target as <%s>) was accepted and the transaction was answered with success, but target t%d did not commit it (%s)", rc.Raw, pr.addr, t, reason),
+					witness(map[string]any{"recipient": rc, "target": t, "effective_address": pr.addr}))
 			}
 		}
 	}
@@ -359,6 +545,13 @@ func judge(r *rep.Reporter, c *rep.Case, sc *scenario, rg *rig, eng *engine, mar
 						// instances differently, which the per-address summary cannot tell apart
 						r.Count("c_unjudged_lmtp_duplicate_recipient", 1)
 						continue
+					}
+					if ambiguousShared(tx, rc) {
+						r.Count("lmtp_unjudged_shared_address_failed_on_partial_target", 1)
+						continue
+					}
+					if len(sharedAddrs(sc, tx, rc)) > 0 {
+						r.Count("alias_shared_address_recipients_judged", 1)
 					}
 					requireDelivered(tx, rc, "lmtp-success-not-committed")
 				}
@@ -427,42 +620,43 @@ func judge(r *rep.Reporter, c *rep.Case, sc *scenario, rg *rig, eng *engine, mar
 				break
 			}
 			// per recipient: a failure reply although all of its targets committed it
-			seen := map[*rcptRec]bool{}
-			for _, d := range group {
-				for tok := range d.tokens {
-					for _, rc := range recsByToken[tok] {
-						if seen[rc] || rc.Final == nil || !rc.Final.failed() || !rc.Accepted || dupToken(rc.tx, rc.Token) {
+			for _, rc := range tx.Rcpts {
+				if rc.Unmodelled || rc.Final == nil || !rc.Final.failed() || !rc.Accepted || dupToken(tx, rc.Token) {
+					continue
+				}
+				if ambiguousShared(tx, rc) {
+					r.Count("lmtp_unjudged_shared_address_failed_on_partial_target", 1)
+					continue
+				}
+				if len(sharedAddrs(sc, tx, rc)) > 0 {
+					r.Count("alias_shared_address_recipients_judged", 1)
+				}
+				prs := pairsOf(sc, rc)
+				delivered, partly := 0, false
+				for _, pr := range prs {
+					for _, d2 := range group {
+						if d2.tgt != pr.tgt {
 							continue
 						}
-						seen[rc] = true
-						ts := sc.targetsOf(rc.Local, rc.Domain)
-						delivered, partly := 0, false
-						for _, t := range ts {
-							for _, d2 := range group {
-								if d2.tgt != t {
-									continue
-								}
-								nOK, nAll := d2.delivered(rc.Token)
-								if nAll > 0 && nOK == nAll {
-									delivered++
-									break
-								}
-								if nOK > 0 {
-									partly = true
-								}
-							}
+						nOK, nAll := d2.deliveredAddr(pr.tok, pr.addr)
+						if nAll > 0 && nOK == nAll {
+							delivered++
+							break
 						}
-						switch {
-						case delivered == 0 && !partly:
-						case delivered < len(ts):
-							// some target (or some copy after a 1:n rewrite) failed, another delivered: one reply cannot say both
-							r.Count("d_unjudged_lmtp_targets_disagree", 1)
-						default:
-							c.Violation(fmt.Sprintf("d/lmtp-recipient-refused-but-delivered/cause=%s", cause),
-								fmt.Sprintf("recipient <%s> was answered %s although every target serving it committed the message for it", rc.Raw, rc.Final),
-								witness(map[string]any{"recipient": rc}))
+						if nOK > 0 {
+							partly = true
 						}
 					}
+				}
+				switch {
+				case delivered == 0 && !partly:
+				case delivered < len(prs):
+					// some target (or some copy after a 1:n rewrite) failed, another delivered: one reply cannot say both
+					r.Count("d_unjudged_lmtp_targets_disagree", 1)
+				default:
+					c.Violation(fmt.Sprintf("d/lmtp-recipient-refused-but-delivered/cause=%s", cause),
+						fmt.Sprintf("recipient <%s> was answered %s although every target serving it committed the message for it", rc.Raw, rc.Final),
+						witness(map[string]any{"recipient": rc}))
 				}
 			}
 		}
